@@ -56,9 +56,7 @@ def showLock (l : Option Nat) : String :=
 def bits (n : Nat) (f : Nat → Bool) : String :=
   String.ofList ((List.range n).map (fun i => if f i then '1' else '0'))
 
-def mkState (tgt : Option Bytes) (as : List Actor) : State :=
-  { fs := { target := tgt.map (fun _ => Ino.init), lock := none }
-    actors := fun j => as.getD j (Actor.init false false [] [] []) }
+def mkState (tgt : Option Bytes) (as : List Actor) : State := State.ofList tgt.isSome as
 
 def runTrace (P : Program) (init : Bytes) : State → Sched → List String → State × List String
   | s, [], acc => (s, acc.reverse)
